@@ -537,6 +537,11 @@ impl RibUnitRunner {
                         } => {
                             arc_self.status_reporter.reconfigured();
 
+                            // verif-hooks (C13, add-only): pause point before the
+                            // unit drops its old links and subscribes again.
+                            #[cfg(feature = "verif-hooks")]
+                            crate::verif::point("rib.reconfiguring");
+
                             let old_http_api_path =
                                 arc_self.http_processor.http_api_path();
                             let (new_http_api_path, _is_sub_resource) =
